@@ -9,7 +9,10 @@ from hypothesis import strategies as st
 from vf import dense, gen
 from vf.budget import Budget
 from vf.core import Clause, Property, Violation
-from vf.osk import IS_PART, IS_TM, eff_tau, outcome_values, rate_values
+from vf.osk import IS_PART, IS_TM, eff_tau, observed_or_rate, outcome_values, rate_values
+from vf.league import league_class
+from vf.stateful import machine_factory, replayer
+
 
 EPS = sys.float_info.epsilon
 
@@ -31,7 +34,7 @@ def check_a(case, ctx):
     n = len(teams)
     values = outcome_values(n, call)
     tau = eff_tau(cfg, call)
-    res = rate_values(cfg, teams, call, ctx)
+    res = observed_or_rate(case, ctx)
     for lab in gen.game_labels(case):
         ctx.label(lab)
     bud = Budget(kind, teams, values, cfg["beta"], cfg["kappa"], tau)
@@ -231,6 +234,8 @@ def cases_d(draw):
 
 STRAT_A = gen.games(regimes=["targeted", "targeted", "targeted", "generic", "corner", "near_equal", "identical", "dyadic"])
 
+LEAGUE = league_class("C05League", ("direction",), "C05")
+
 PROPERTY = Property(
     pid="C05",
     clauses=[
@@ -247,6 +252,11 @@ PROPERTY = Property(
         Clause(name="d-identical-teams-ordered", strategy=cases_d(), check=check_d, quick=3000, thorough=60000,
                rule="tie-free game among all-identical teams (all five models; strict except partial pairing) or an identical pair among arbitrary others "
                     "(PL / full pairing); non-trivial = >= 3 teams"),
+        Clause(name="a-league-history", kind="stateful", machine=machine_factory(LEAGUE), check=replayer(LEAGUE),
+               quick=320, thorough=6000, steps_quick=30, steps_thorough=120,
+               rule="clause (a) after every game of a league history: 5-12 rating objects on one model, returned or passed-in objects fed back, "
+                    "the returned list rated again, predictions interleaved, any outcome encoding / per-call options; non-trivial = >= 8 games "
+                    "with some player in >= 4"),
     ],
     rule="generated games (half of them with a pair constructed at a 5-9 sigma gap) rated under one or several outcomes; sign / order invariants on posterior mu "
          "with only the rounding floor 4 eps (|mu|+|mu'|) (+64 eps of the summands where two sums are compared), TM draw-margin allowance as stated; "
